@@ -46,8 +46,12 @@ def slow_from_env(value: Optional[str]) -> Any:
     return ns["SLOW"]
 
 
-def run_enabled(kind_i: int, target_i: int, how: int, en: bool, env: Optional[str], t: bool) -> Tuple[bool, bool]:
-    """how: 0 default (no ``enabled`` argument), 1 enabled=<symbolic bool>, 2 enabled=<SLOW computed from env>."""
+def run_enabled(kind_i: int, target_i: int, how: int, en: bool, env: Optional[str], t: bool,
+                kwcall: bool = False) -> Tuple[bool, bool]:
+    """how: 0 default (no ``enabled`` argument), 1 enabled=<symbolic bool>, 2 enabled=<SLOW computed from env>.
+    kwcall: the call passes the reserved keyword ``_ARGS=`` (plain and async functions only): an enabled contract rejects
+    it with TypeError in every interpreter mode, a disabled one is absent so that the bare function simply receives it."""
+    kwcall = True if kwcall else False
     kind_i, target_i, how = conc(kind_i, 0, 3), conc(target_i, 0, len(TARGETS) - 1), conc(how, 0, 2)
     kind, target = KINDS[kind_i], TARGETS[target_i]
     ok = True
@@ -113,11 +117,11 @@ def run_enabled(kind_i: int, target_i: int, how: int, en: bool, env: Optional[st
                 calls["body"] += 1
                 return "res"
         elif is_async:
-            async def bare(x: Any = 1) -> Any:  # type: ignore
+            async def bare(x: Any = 1, **kw: Any) -> Any:  # type: ignore
                 calls["body"] += 1
                 return "res"
         else:
-            def bare(x: Any = 1) -> Any:  # type: ignore
+            def bare(x: Any = 1, **kw: Any) -> Any:  # type: ignore
                 calls["body"] += 1
                 return "res"
         subject = bare
@@ -169,16 +173,25 @@ def run_enabled(kind_i: int, target_i: int, how: int, en: bool, env: Optional[st
                 return holder().m
         elif is_async:
             def call() -> Any:
-                return drive(f(1))
+                return drive(f(1, _ARGS=(2,)) if kwcall else f(1))
         else:
             def call() -> Any:
-                return f(1)
+                return f(1, _ARGS=(2,)) if kwcall else f(1)
+    kwcall = kwcall and kind != "invariant" and target in ("function", "async_function")
     try:
         res = fresh(call)
         out = "ret"
     except Tag as e:
         res = None
         out = "violation:" + str(e.label)
+    except TypeError as e:
+        res = None
+        out = "type_error" if "_ARGS" in str(e) else "other_type_error"
+    if kwcall and (effective or kind == "snapshot"):  # (the snapshot sits on an always enabled postcondition)
+        # the reserved keyword is rejected before anything is evaluated - with and without -O
+        ok = ok and out == "type_error" and calls["cond"] == 0 and calls["body"] == 0
+        note((kind, target, how, effective, out, sys.flags.optimize, "kwcall"), True)
+        return ok, True
     if not effective:
         # never calls its condition or capture; the call behaves like the bare one
         if calls["cond"] != 0 or calls["cap"] != 0 or out != "ret" or res != "res":
@@ -198,7 +211,7 @@ def run_enabled(kind_i: int, target_i: int, how: int, en: bool, env: Optional[st
     return ok, witness
 
 
-ALL = ["kind_i", "target_i", "how", "en", "env", "t"]
+ALL = ["kind_i", "target_i", "how", "en", "env", "t", "kwcall"]
 
 
 def harnesses(tier: str) -> List[H]:
@@ -206,12 +219,14 @@ def harnesses(tier: str) -> List[H]:
     for flags, label in (([], "normal"), (["-O"], "O"), (["-OO"], "OO")):
         for how in range(3):
             params = [I("kind_i", 0, 3), I("target_i", 0, len(TARGETS) - 1)]
-            defaults = {"how": how, "en": True, "env": None}  # type: Dict[str, Any]
+            defaults = {"how": how, "en": True, "env": None, "kwcall": False}  # type: Dict[str, Any]
             if how == 1:
                 params += [B("en")]
             if how == 2:
                 params += [OS("env", 2 if tier == "quick" else 4)]
             params += [B("t")]
+            if how == 1:
+                params += [B("kwcall")]
             out.append(H("enabled_{}_{}".format(["default", "explicit", "slow"][how], label),
                          bind(run_enabled, (), ALL, defaults, [p.name for p in params]), params, tiers=(tier,),
                          timeout=600, py_flags=flags,
